@@ -42,9 +42,15 @@ LIMITS = [255, 256, 257, 1023, 4095, 4096, 65535, 1048575]
 def build_target(run, fb):
     exe = os.path.join(run.dir, "fuzz_exec")
     libdir = os.path.dirname(fb["lib"])
+    # everything the sandboxed (uid 65534) fuzz process needs lives in the world-readable run directory
+    fzlib = os.path.join(run.dir, "fzlib")
+    os.makedirs(fzlib, exist_ok=True)
+    shutil.copy(os.path.join(VERIF, "build", "librecorder.so"), fzlib)
+    shutil.copy(DICT, os.path.join(run.dir, "C02.dict"))
+    os.chmod(fzlib, 0o755)
     cmd = ["clang++", "-std=gnu++17", "-g", "-O1", "-fsanitize=fuzzer,address,undefined", "-fno-sanitize-recover=undefined",
            os.path.join(VERIF, "harness", "fuzz_exec.cpp"), "-o", exe, "-L" + libdir, "-lsnoopy",
-           "-L" + os.path.join(VERIF, "build"), "-lrecorder", "-Wl,-rpath," + libdir, "-Wl,-rpath," + os.path.join(VERIF, "build")]
+           "-L" + fzlib, "-lrecorder", "-Wl,-rpath," + libdir, "-Wl,-rpath," + fzlib]
     p = subprocess.run(cmd, stdout=subprocess.PIPE, stderr=subprocess.STDOUT)
     if p.returncode != 0:
         infra_fail("fuzz target does not build: " + p.stdout.decode()[-2000:])
@@ -63,7 +69,11 @@ def box(run, i, cmd):
     os.makedirs(etc, exist_ok=True)
     os.chmod(wd, 0o777)
     os.chmod(etc, 0o777)
-    return [os.path.join(VERIF, "harness", "fuzzbox.sh"), run.dir, etc, run.etc, "--"] + cmd
+    fb = os.path.join(run.dir, "fuzzbox.sh")
+    if not os.path.exists(fb):
+        shutil.copy(os.path.join(VERIF, "harness", "fuzzbox.sh"), fb)
+        os.chmod(fb, 0o755)
+    return [fb, run.dir, etc, run.etc, "--"] + cmd
 
 
 def run_unit(run, exe, i, path, timeout=30):
@@ -113,12 +123,15 @@ def fuzz_phase(ctx, fb):
     run = ctx.run
     exe = build_target(run, fb)
     nw = 16
-    budget = 40 if ctx.quick else 900
+    budget = int(os.environ.get("VERIF_FUZZ_SECONDS", "0")) or (40 if ctx.quick else 900)
     procs = []
     t0 = time.time()
     # 1. saved regression units + seeds, outside the fuzzing loop (seconds-long replay tier)
     os.makedirs(os.path.join(run.dir, "fz-0"), exist_ok=True)
-    for f in sorted(glob.glob(os.path.join(CORPUS, "*"))):
+    saved = os.path.join(run.dir, "saved")
+    shutil.copytree(CORPUS, saved)
+    subprocess.run(["chmod", "-R", "a+rX", saved])
+    for f in sorted(glob.glob(os.path.join(saved, "*"))):
         crashed, hung, out = run_unit(run, exe, 0, f)
         ctx.count("saved:" + os.path.basename(f), ["saved-unit"], sample={"saved_unit": os.path.basename(f)})
         if crashed or hung:
@@ -137,7 +150,7 @@ def fuzz_phase(ctx, fb):
             os.chmod(d_, 0o777)
         subprocess.run(["chmod", "-R", "a+rwX", wd])
         cmd = box(run, i, [exe, "-seed=%d" % (ctx.seed * 100 + i + 1), "-max_total_time=%d" % budget, "-max_len=8192", "-timeout=30",
-                           "-detect_leaks=0", "-rss_limit_mb=4096", "-dict=" + DICT, "-artifact_prefix=" + art + "/",
+                           "-detect_leaks=0", "-rss_limit_mb=4096", "-dict=" + os.path.join(run.dir, "C02.dict"), "-artifact_prefix=" + art + "/",
                            "-print_final_stats=1", "-use_value_profile=%d" % (i % 2), corp])
         log = open(os.path.join(wd, "log.txt"), "wb")
         procs.append((i, subprocess.Popen(cmd, env=fuzz_env(run, i), stdout=log, stderr=subprocess.STDOUT, cwd=wd), wd))
